@@ -260,11 +260,11 @@ def corpus():
 def cases(rng, tier):
     quick = tier == "quick"
     # 1 stanzas of single conflicts (odd values)
-    for _ in range(150 if quick else 3000):
+    for _ in range(150 if quick else 2000):
         yield {"kind": "stanza", "c": _gen_conflict(rng, PATH_POOL, ID_POOL, odd=0.5, cr=0.05, none4=0.1)}
     # 2 factory on arbitrary stanzas
     tags = ["type", "path", "file_id", "action", "conflict_path", "conflict_file_id", "hash", "x"]
-    for _ in range(200 if quick else 4000):
+    for _ in range(200 if quick else 3000):
         chosen = [t for t in tags if rng.random() < (0.75 if t in ("type", "path") else 0.35)]
         rng.shuffle(chosen)
         pairs = []
@@ -280,13 +280,13 @@ def cases(rng, tier):
             pairs = [["path", "p"]]
         yield {"kind": "factory", "pairs": pairs}
     # 3 persisted lists
-    for i in range(120 if quick else 3000):
+    for i in range(120 if quick else 1500):
         n = rng.choice([0, 1, 1, 2, 3, 5, 8]) if i % 10 else rng.randint(9, 20)
         yield {"kind": "persist",
                "cs": [_gen_conflict(rng, PATH_POOL, ID_POOL, odd=0.4, cr=0.02 if i % 4 == 0 else 0.0,
                                     none4=0.02 if i % 7 == 0 else 0.0) for _ in range(n)]}
     # 4 selections
-    for i in range(150 if quick else 4000):
+    for i in range(150 if quick else 3000):
         tree = rng.choice(list(TREES))
         npaths = rng.choice([0, 1, 1, 2, 3])
         paths = [rng.choice(PATH_POOL if rng.random() < 0.85 else ODD_PATHS[:12]) for _ in range(npaths)]
@@ -331,7 +331,7 @@ def cases(rng, tier):
             cs.append(c)
         yield {"kind": "select", "tree": tree, "paths": paths, "recurse": recurse, "cs": cs, "p2i": _p2i(tree, paths)}
     # 5 merge-modified dicts
-    for _ in range(60 if quick else 1500):
+    for _ in range(60 if quick else 1000):
         tree = rng.choice(list(TREES))
         entries = TREES[tree]
         d = []
